@@ -785,8 +785,48 @@ func genStream(r *rand.Rand) cpuCase {
 	return cpuCase{family: "stream", text: g.text(), regs: initRegs(r, g), memSize: ms, mem: randMem(r, ms)}
 }
 
+// G-pingpong: control flow that leaves the instruction-fetch window on (nearly) every instruction: two blocks of
+// k >= 18 jumps, A_i: j B_i and B_i: j A_{i+1} (the blocks are further apart than any fetch buffer / line is long),
+// so every fetch is a non-sequential miss (C12: MVP-2 must still not be slower than MVP-1; C07/C01 as usual).
+func genPingpong(r *rand.Rand) cpuCase {
+	ms := 64
+	g := newGen(r, 4, ms)
+	k := 18 + r.Intn(8)
+	a := make([]string, k+1)
+	b := make([]string, k)
+	for i := range a {
+		a[i] = g.label()
+	}
+	for i := range b {
+		b[i] = g.label()
+	}
+	if r.Intn(2) == 0 {
+		g.alu()
+	}
+	for i := 0; i < k; i++ {
+		g.place(a[i])
+		g.emit("j %s", b[i])
+	}
+	for i := 0; i < k; i++ {
+		g.place(b[i])
+		if r.Intn(4) == 0 {
+			g.emit("jal %s, %s", g.reg(), a[i+1])
+		} else {
+			g.emit("j %s", a[i+1])
+		}
+	}
+	g.place(a[k])
+	g.body(r.Intn(3), false)
+	if r.Intn(2) == 0 {
+		g.emit("ret")
+	}
+	return cpuCase{family: "pingpong", text: g.text(), regs: initRegs(r, g), memSize: ms, mem: make([]int8, ms)}
+}
+
 func genCase(r *rand.Rand, family string) cpuCase {
 	switch family {
+	case "pingpong":
+		return genPingpong(r)
 	case "stream":
 		return genStream(r)
 	case "dispatch":
